@@ -24,16 +24,25 @@ LEAF = {"INT": ("42", "py:int"), "ID": ("abc", "py:str"), "STRING": ('"s"', "py:
 FNAMES = ["a", "b", "c", "d", "e", "g"]
 DIRS = ["", "", "", "p", "p", "p.q", "r"]
 CLASSIFIER = "cyclic_back_reference"
+LANGS = [["c25lang", ["Ext", "Other"]]]       # languages registered in the runner; `reference c25lang as l`
 
 
 # ---------------------------------------------------------------- documented behaviour (oracle)
-def abs_import(cur, imp):
-    name = (cur.rsplit(".", 1)[0] + "." + imp) if "." in cur else imp
+class FS(dict):
+    """namespace -> file, plus the namespace of the main grammar"""
+    main = None
+
+
+def abs_import(cur, imp, main):
+    # the main grammar sits in the root folder whatever its file name is (fixed 76155a4)
+    name = (cur.rsplit(".", 1)[0] + "." + imp) if ("." in cur and cur != main) else imp
     return ".".join(p for p in name.split(".") if p)
 
 
 def fs_map(case):
-    return {ns: f for ns, f in case["fs"]}
+    fsm = FS((ns, f) for ns, f in case["fs"])
+    fsm.main = case["mainns"]
+    return fsm
 
 
 def defines(fsm, ns, name):
@@ -45,6 +54,9 @@ def spec_resolve(fsm, cur, name):
     """(namespace, rule) the name stands for in grammar `cur`, or None."""
     if "." in name:
         q, n = name.rsplit(".", 1)
+        for alias, lang in fsm[cur].get("refs", []):
+            if q == alias:          # an alias of a referenced language: resolved in that language's meta-model
+                return ("@" + lang, n) if n in dict(LANGS).get(lang, []) else None
         if defines(fsm, q, n):
             return (q, n)
         return (BASE, n) if q == BASE and n in BASE_NAMES else None
@@ -53,7 +65,7 @@ def spec_resolve(fsm, cur, name):
     if name in BASE_NAMES:
         return (BASE, name)
     for imp in fsm[cur]["imports"]:
-        a = abs_import(cur, imp)
+        a = abs_import(cur, imp, fsm.main)
         if defines(fsm, a, name):
             return (a, name)
     return None
@@ -61,6 +73,10 @@ def spec_resolve(fsm, cur, name):
 
 def fqn_of(t):
     return t[1] if t[0] == BASE else t[0] + "." + t[1]
+
+
+def aliases_of(f):
+    return [a for a, _ in f.get("refs", [])]
 
 
 def load_order(fsm, main):
@@ -77,7 +93,7 @@ def load_order(fsm, main):
             return
         order.append(ns)
         for imp in fsm[ns]["imports"]:
-            a = abs_import(ns, imp)
+            a = abs_import(ns, imp, fsm.main)
             if a in seen:
                 if a in stack + [ns]:
                     backs.append((ns, a))
@@ -113,7 +129,7 @@ def classify(fsm, main):
     def go(ns, stack, seen):
         anc[ns] = list(stack)
         for imp in fsm[ns]["imports"]:
-            a = abs_import(ns, imp)
+            a = abs_import(ns, imp, fsm.main)
             if a not in seen and a in fsm:
                 seen.add(a)
                 go(a, stack + [ns], seen)
@@ -122,7 +138,7 @@ def classify(fsm, main):
     for ns, stack in anc.items():
         if not stack:
             continue
-        imps = [abs_import(ns, i) for i in fsm[ns]["imports"]]
+        imps = [abs_import(ns, i, fsm.main) for i in fsm[ns]["imports"]]
         for r in fsm[ns]["rules"]:
             for kind, name in r["items"]:
                 if "." in name:
@@ -141,7 +157,8 @@ def kw(fidx, name):
 
 
 def render(fsm_entry, fidx):
-    lines = ["import %s" % i for i in fsm_entry["imports"]]
+    lines = ["reference %s as %s" % (lang, a) if a != lang else "reference %s" % lang for a, lang in fsm_entry.get("refs", [])]
+    lines += ["import %s" % i for i in fsm_entry["imports"]]
     for r in fsm_entry["rules"]:
         parts = ["'%s'" % kw(fidx, r["name"]), "t?='!'"]
         for k, (kind, name) in enumerate(r["items"]):
@@ -156,6 +173,8 @@ def gen_case(r, i):
     mode = r.weighted([("valid", 7), ("mixed", 3)])
     cyclic = r.chance(0.3)
     nss = [r.choice(FNAMES)]               # the main grammar sits in the main folder
+    if r.chance(0.12):
+        nss[0] = r.choice(["my.", "p.", "v1."]) + nss[0]     # a main file name with a dot: `p.a.tx` next to the folder p/
     while len(nss) < nfiles:
         # the same file name may occur in several folders (p/b.tx and b.tx are different grammars)
         d = r.choice(DIRS)
@@ -170,10 +189,13 @@ def gen_case(r, i):
         if r.chance(0.15):
             pool += BASE_POOL
         rn = r.shuffle(pool)[:nrules]
-        files.append({"ns": ns, "imports": [], "rules": [{"name": n, "items": []} for n in rn]})
+        refs = []
+        if r.chance(0.22):
+            refs = [[r.choice(["l", "c25lang", "ext"]), "c25lang"]]
+        files.append({"ns": ns, "refs": refs, "imports": [], "rules": [{"name": n, "items": []} for n in rn]})
     # imports: acyclic by construction (only files later in the list), optional back edges
     for k, f in enumerate(files):
-        d = f["ns"].rsplit(".", 1)[0] + "." if "." in f["ns"] else ""
+        d = f["ns"].rsplit(".", 1)[0] + "." if ("." in f["ns"] and k > 0) else ""
         cands = [g for j, g in enumerate(files) if g["ns"].startswith(d) and (j > k or (cyclic and j != k and r.chance(0.5)) or (cyclic and j == k and r.chance(0.1)))]
         nimp = r.weighted([(0, 1), (1, 3), (2, 4), (3, 2)]) if k < len(files) - 1 else r.weighted([(0, 5), (1, 2), (2, 1)])
         if k == 0:
@@ -192,11 +214,12 @@ def gen_case(r, i):
             f["imports"].append(r.choice(f["imports"]))          # the same file imported twice
         if mode == "mixed" and r.chance(0.06):
             f["imports"].insert(r.below(len(f["imports"]) + 1), r.choice(["nofile", "p.nofile", BASE]))
-    fsm = {f["ns"]: f for f in files}
+    fsm = FS((f["ns"], f) for f in files)
+    fsm.main = files[0]["ns"]
     # references
     for f in files:
         ns = f["ns"]
-        imps = [abs_import(ns, x) for x in f["imports"]]
+        imps = [abs_import(ns, x, fsm.main) for x in f["imports"]]
         visible = [x["name"] for x in f["rules"]]
         for a in imps:
             if a in fsm:
@@ -205,7 +228,7 @@ def gen_case(r, i):
             n = r.weighted([(0, 1), (1, 3), (2, 4), (3, 3), (4, 1)])
             for _ in range(n):
                 kind = "r" if r.chance(0.75) else "c"
-                ch = r.weighted([("vis", 60), ("qual", 18), ("base", 6 if kind == "r" else 0),
+                ch = r.weighted([("vis", 60), ("qual", 18), ("base", 6 if kind == "r" else 0), ("alias", 30 if f["refs"] else 0),
                                  ("anyq", 5 if mode == "mixed" else 0), ("any", 6 if mode == "mixed" else 0),
                                  ("junk", 2 if mode == "mixed" else 0)])
                 if ch == "vis":
@@ -215,6 +238,8 @@ def gen_case(r, i):
                     name = a + "." + r.choice(fsm[a]["rules"])["name"]
                 elif ch == "base":
                     name = r.choice(BASE_POOL)
+                elif ch == "alias":
+                    name = f["refs"][0][0] + "." + r.choice(["Ext", "Other"] if mode == "valid" or r.chance(0.8) else ["Nope"])
                 elif ch == "anyq":
                     a = r.choice(files)
                     name = a["ns"] + "." + r.choice(POOL)
@@ -230,12 +255,16 @@ def gen_case(r, i):
 
 def build_case(files, nested_root):
     """files: list of {ns, imports, rules:[{name, items}]}; first is the main grammar."""
-    fsm = {f["ns"]: f for f in files}
+    fsm = FS((f["ns"], f) for f in files)
     main = files[0]["ns"]
+    fsm.main = main
     prefix = "w/" if nested_root else ""
     phys = {}
     for k, f in enumerate(files):
-        phys[prefix + f["ns"].replace(".", "/") + ".tx"] = render(f, k)
+        path = f["ns"] if k == 0 else f["ns"].replace(".", "/")     # the main file name may contain dots
+        if k > 0 and prefix + path + ".tx" in phys:
+            continue
+        phys[prefix + path + ".tx"] = render(f, k)
     if nested_root:
         # decoys outside the main grammar's folder must never be picked up
         for k, f in enumerate(files[1:], 1):
@@ -247,6 +276,8 @@ def build_case(files, nested_root):
     for f in files:
         queries.append(f["ns"] + "." + f["rules"][-1]["name"])
     queries.append(files[-1]["ns"] + ".Nope")
+    for a in aliases_of(files[0]):
+        queries += [a + ".Ext", a + ".Nope"]
     # model texts exercising every reference reachable from the root rule (documented resolution)
     texts = []
     root = (main, files[0]["rules"][0]["name"])
@@ -301,12 +332,12 @@ def build_case(files, nested_root):
     if not texts and not tainted(root):
         texts.append({"text": kw(0, root[1]), "path": [], "expect": [fqn_of(root)]})
     return {"files": phys, "main": prefix + main + ".tx", "mainns": main,
-            "fs": [[f["ns"], {"imports": f["imports"], "rules": f["rules"]}] for f in files],
+            "fs": [[f["ns"], {"refs": f.get("refs", []), "imports": f["imports"], "rules": f["rules"]}] for f in files],
             "queries": queries, "texts": texts}
 
 
-def F(ns, imports, rules):
-    return {"ns": ns, "imports": imports, "rules": [{"name": n, "items": [list(x) for x in items]} for n, items in rules]}
+def F(ns, imports, rules, refs=()):
+    return {"ns": ns, "refs": [list(x) for x in refs], "imports": imports, "rules": [{"name": n, "items": [list(x) for x in items]} for n, items in rules]}
 
 
 def corpus_cases():
@@ -318,6 +349,14 @@ def corpus_cases():
     cs.append(build_case([F("a", ["p.b", "p..b", ".p.b", "p.c"], [("Main", [("r", "X"), ("c", "a.Main"), ("r", "INT")])]),
                           F("p.b", ["c"], [("X", [("r", "Y"), ("r", "INT")])]),
                           F("p.c", [], [("Y", []), ("INT", [])])], False))
+    # a main grammar whose file name contains a dot imports relative to its own folder (fixed 76155a4)
+    cs.append(build_case([F("my.g", ["b", "p.c"], [("Main", [("r", "X"), ("r", "Y"), ("r", "my.g.Main")])]),
+                          F("b", [], [("X", [])]),
+                          F("p.c", ["d"], [("Y", [("r", "Z")])]),
+                          F("p.d", [], [("Z", [])])], False))
+    # rules of a referenced language through an alias (`reference c25lang as l`), next to grammar-file namespaces
+    cs.append(build_case([F("a", ["b"], [("Main", [("r", "l.Ext"), ("c", "l.Other"), ("r", "b.Y"), ("r", "Y")])], refs=[("l", "c25lang")]),
+                          F("b", [], [("Y", [("r", "c25lang.Other")])], refs=[("c25lang", "c25lang")])], False))
     # diamond with overriding names
     cs.append(build_case([F("a", ["b", "c"], [("Main", [("r", "X"), ("r", "Y"), ("r", "W"), ("r", "c.W")]), ("Y", [])]),
                           F("b", ["d"], [("X", [("r", "W")]), ("Y", [])]),
@@ -358,12 +397,14 @@ def coq_fs(case, S):
             rr = [S(n) for k, n in rule["items"] if k == "r"]
             cr = [S(n) for k, n in rule["items"] if k == "c"]
             rules.append("{| rname := %s; rrefs := %s; rcrefs := %s |}" % (S(rule["name"]), core.coq_list(rr), core.coq_list(cr)))
-        ents.append("(%s, {| gimports := %s; grules := %s |})" % (S(ns), core.coq_list([S(x) for x in f["imports"]]), core.coq_list(rules)))
+        refs = core.coq_list(["(%s, %s)" % (S(a), S(lang)) for a, lang in f.get("refs", [])])
+        ents.append("(%s, {| grefs := %s; gimports := %s; grules := %s |})" % (S(ns), refs, core.coq_list([S(x) for x in f["imports"]]), core.coq_list(rules)))
     return core.coq_list(ents)
 
 
 def coq_case(case, S):
-    return "run_case %s %s %s" % (coq_fs(case, S), S(case["mainns"]), core.coq_list([S(q) for q in case["queries"]]))
+    langs = core.coq_list(["(%s, %s)" % (S(l), core.coq_list([S(x) for x in rules])) for l, rules in LANGS])
+    return "run_case %s %s %s %s" % (langs, coq_fs(case, S), S(case["mainns"]), core.coq_list([S(q) for q in case["queries"]]))
 
 
 def coq_run(tag, cases):
@@ -464,16 +505,16 @@ def oracle(case, o):
                 t = spec_resolve(fsm, ns, name)
                 if t is None:
                     unresolvable.append((ns, name))
-                elif "." in name and t[0] not in order:
+                elif "." in name and t[0] not in order and not t[0].startswith("@"):
                     unresolvable.append((ns, name))      # names a grammar that is never loaded
     # a qualified name may legitimately fail when the named grammar is not imported (directly)
     # by the referring one and is simply not loaded yet: the property does not say.
     lenient = False
     for ns in order:
-        imps = [abs_import(ns, i) for i in fsm[ns]["imports"]]
+        imps = [abs_import(ns, i, fsm.main) for i in fsm[ns]["imports"]]
         for rule in fsm[ns]["rules"]:
             for kind, name in rule["items"]:
-                if "." in name and name.rsplit(".", 1)[0] not in imps + [ns]:
+                if "." in name and name.rsplit(".", 1)[0] not in imps + [ns] + aliases_of(fsm[ns]):
                     lenient = True
     if "error" in o:
         e = o["error"]
@@ -531,7 +572,7 @@ def oracle(case, o):
     # metamodel[name] from the main grammar's point of view
     for q, c in o["queries"]:
         t = spec_resolve(fsm, main, q)
-        if t is not None and t[0] != BASE and t[0] not in order:
+        if t is not None and t[0] != BASE and t[0] not in order and not t[0].startswith("@"):
             t = None
         want = None if t is None else fqn_of(t)
         got = None if c is None else c[0]
@@ -555,7 +596,7 @@ def oracle(case, o):
 def run_cases(cases):
     chunks = [cases[i::core.NPROC] for i in range(core.NPROC)]
     chunks = [c for c in chunks if c]
-    outs = core.run_impl_parallel("c25", [{"cases": ch} for ch in chunks])
+    outs = core.run_impl_parallel("c25", [{"cases": ch, "langs": LANGS} for ch in chunks])
     res = {}
     for ch, o in zip(chunks, outs):
         for c, x in zip(ch, o):
@@ -606,6 +647,10 @@ def run(chk):
         chk.stat("files loaded %d" % min(len(order), 6))
         if backs:
             chk.stat("import cycles")
+        if "." in c["mainns"]:
+            chk.stat("main file name with a dot")
+        if any(k and k[0].startswith("@") for _, _, _, _, k, _ in o.get("links", [])):
+            chk.stat("reference resolved in a referenced language")
         if any("." in ns for ns in order):
             chk.stat("nested folders")
         diffs = compare(c, o, mv)
